@@ -858,6 +858,11 @@ pub fn judge(c: &OpCase, publics: &[Fq]) -> Judgement {
             Ok(false) => Judgement::Inadmissible,
             Err(e) => Judgement::Wrong(e),
         },
+        "ng" => match crate::ops_ng::check(c, publics) {
+            Ok(true) => Judgement::Holds,
+            Ok(false) => Judgement::Inadmissible,
+            Err(e) => Judgement::Wrong(e),
+        },
         "h" => match crate::ops_hash::check(c, publics) {
             Ok(true) => Judgement::Holds,
             Ok(false) => Judgement::Inadmissible,
@@ -891,6 +896,7 @@ pub fn expected_admissible(c: &OpCase) -> bool {
         "ff" | "big" => crate::ops_ff::expected_admissible(c),
         "ec" => crate::ops_ecc::expected_admissible(c),
         "h" => crate::ops_hash::expected_admissible(c),
+        "ng" => crate::ops_ng::expected_admissible(c),
         _ => {
             let ins: Vec<Fq> = c.ins.iter().map(|x| x.0).collect();
             native_eval(c, &ins).is_some()
@@ -914,7 +920,9 @@ pub fn all_ops() -> Vec<String> {
 }
 
 pub fn gen_case(rng: &mut Prng, op: &str) -> OpCase {
-    if op.starts_with("h.") {
+    if op.starts_with("ng.") {
+        crate::ops_ng::gen_case(rng, op)
+    } else if op.starts_with("h.") {
         crate::ops_hash::gen_case(rng, op)
     } else if op.starts_with("ec.") {
         crate::ops_ecc::gen_case(rng, op)
@@ -933,4 +941,20 @@ pub fn input_class(c: &OpCase) -> String {
         return "[identity base, constant above 128 bits]".into();
     }
     String::new()
+}
+
+/// Development aid (sensitivity experiments only, never set by a registered
+/// command): ZKSIM_OP_FILTER=<substring> restricts an operation list.
+pub fn dev_filter(v: Vec<String>) -> Vec<String> {
+    match std::env::var("ZKSIM_OP_FILTER") {
+        Ok(f) if !f.is_empty() => {
+            let w: Vec<String> = v.iter().filter(|o| o.contains(&f)).cloned().collect();
+            if w.is_empty() {
+                v
+            } else {
+                w
+            }
+        }
+        _ => v,
+    }
 }
